@@ -179,7 +179,10 @@ func runLifecycleCase(c lcCase, tmp string) []map[string]interface{} {
 	}
 	logEv := func(g int, op, res string, extra map[string]interface{}) {
 		l, k, p := snapshot()
-		m := map[string]interface{}{"ev": "ret", "op": op, "res": res, "g": g, "launches": l, "kills": k, "tmp_present": p, "tmpdirs": len(tmpDirs)}
+		mu.Lock()
+		ndirs := len(tmpDirs)
+		mu.Unlock()
+		m := map[string]interface{}{"ev": "ret", "op": op, "res": res, "g": g, "launches": l, "kills": k, "tmp_present": p, "tmpdirs": ndirs}
 		for kk, v := range extra {
 			m[kk] = v
 		}
